@@ -60,6 +60,11 @@ def user_function_attrs(k: ClassInfo) -> dict[str, ast.Call]:
     for attr, sites in k.init_attr_assignments().items():
         for _f, st in sites:
             v = getattr(st, "value", None)
+            # the wrapped function may be bound to a local first: f = autodiff_fallback(...); self._x = f
+            if isinstance(v, ast.Name):
+                defs = [a.value for a in ast.walk(_f.node) if isinstance(a, ast.Assign) and len(a.targets) == 1 and isinstance(a.targets[0], ast.Name) and a.targets[0].id == v.id]
+                if len(defs) == 1:
+                    v = defs[0]
             if isinstance(v, ast.Call) and norm(v.func) in (
                 "wrap_function",
                 "autodiff_fallback",
